@@ -6,9 +6,12 @@
 (* peers are written as case splits over 1..6 so that everything stays     *)
 (* linear.  One step (--length=0): the invariant is checked on EVERY       *)
 (* initial state, i.e. for all lo, hi within the type with at most         *)
-(* MAXELEMS (2^62) elements and all peers 1..6.  The three input classes   *)
-(* of the known deviations (reversed, chunk start beyond TMAX, usize above *)
-(* i64::MAX) are excluded exactly as in the main TLC configs.              *)
+(* MAXELEMS (2^62) elements - reversed ranges of any span included - and   *)
+(* all peers 1..6.  FIX_REVERSED / FIX_CLAMP_START select the arithmetic   *)
+(* after / before the fixes 09da878 / 663b135 as in comp/RangeSplit.tla:   *)
+(* the CInit* of the current code must give NoError, CInitI64Old and       *)
+(* CInitI32OldClamp (regression documentation) must give Error.  usize is  *)
+(* checked up to i64::MAX only (open finding F1-usize).                    *)
 (***************************************************************************)
 EXTENDS Integers
 
@@ -24,7 +27,11 @@ CONSTANTS
   \* @type: Int;
   CMAX,
   \* @type: Int;
-  MAXELEMS
+  MAXELEMS,
+  \* @type: Bool;
+  FIX_REVERSED,
+  \* @type: Bool;
+  FIX_CLAMP_START
 
 VARIABLES
   \* @type: Int;
@@ -40,15 +47,21 @@ VARIABLES
   \* @type: Int -> Int;
   e
 
+Fixed == FIX_REVERSED = TRUE /\ FIX_CLAMP_START = TRUE
 I64MIN == -9223372036854775808
 I64MAX == 9223372036854775807
 P62 == 4611686018427387904
 
-CInitI64 == BODY = "B" /\ TMIN = I64MIN /\ TMAX = I64MAX /\ CMIN = I64MIN /\ CMAX = I64MAX /\ MAXELEMS = P62
-CInitU64 == BODY = "A" /\ TMIN = 0 /\ TMAX = 18446744073709551615 /\ CMIN = 0 /\ CMAX = 18446744073709551615 /\ MAXELEMS = P62
-CInitUsize == BODY = "B" /\ TMIN = 0 /\ TMAX = I64MAX /\ CMIN = I64MIN /\ CMAX = I64MAX /\ MAXELEMS = P62
-CInitI32 == BODY = "B" /\ TMIN = -2147483648 /\ TMAX = 2147483647 /\ CMIN = I64MIN /\ CMAX = I64MAX /\ MAXELEMS = P62
-CInitU32 == BODY = "B" /\ TMIN = 0 /\ TMAX = 4294967295 /\ CMIN = I64MIN /\ CMAX = I64MAX /\ MAXELEMS = P62
+CInitI64 == BODY = "B" /\ TMIN = I64MIN /\ TMAX = I64MAX /\ CMIN = I64MIN /\ CMAX = I64MAX /\ MAXELEMS = P62 /\ Fixed
+CInitU64 == BODY = "A" /\ TMIN = 0 /\ TMAX = 18446744073709551615 /\ CMIN = 0 /\ CMAX = 18446744073709551615 /\ MAXELEMS = P62 /\ Fixed
+CInitUsize == BODY = "B" /\ TMIN = 0 /\ TMAX = I64MAX /\ CMIN = I64MIN /\ CMAX = I64MAX /\ MAXELEMS = P62 /\ Fixed
+CInitI32 == BODY = "B" /\ TMIN = -2147483648 /\ TMAX = 2147483647 /\ CMIN = I64MIN /\ CMAX = I64MAX /\ MAXELEMS = P62 /\ Fixed
+CInitU32 == BODY = "B" /\ TMIN = 0 /\ TMAX = 4294967295 /\ CMIN = I64MIN /\ CMAX = I64MAX /\ MAXELEMS = P62 /\ Fixed
+
+CInitI64Old == BODY = "B" /\ TMIN = I64MIN /\ TMAX = I64MAX /\ CMIN = I64MIN /\ CMAX = I64MAX /\ MAXELEMS = P62
+               /\ FIX_REVERSED = FALSE /\ FIX_CLAMP_START = TRUE
+CInitI32OldClamp == BODY = "B" /\ TMIN = -2147483648 /\ TMAX = 2147483647 /\ CMIN = I64MIN /\ CMAX = I64MAX
+                    /\ MAXELEMS = P62 /\ FIX_REVERSED = TRUE /\ FIX_CLAMP_START = FALSE
 
 Max2(a, b) == IF a >= b THEN a ELSE b
 Min2(a, b) == IF a <= b THEN a ELSE b
@@ -63,33 +76,27 @@ Div(x, p) == IF p = 1 THEN x ELSE IF p = 2 THEN x \div 2 ELSE IF p = 3 THEN x \d
 TruncDiv(x, p) == IF x >= 0 THEN Div(x, p) ELSE 0 - Div(0 - x, p)
 Idx == 0..5
 Prod(i) == IF chunk >= 0 THEN Mul(chunk, i) ELSE 0 - Mul(0 - chunk, i)
-(* a call panics: overflow of index * chunk, `end - start` of body A, or (body B) a result outside *)
-(* the value type                                                                                  *)
-Panics(i) == Prod(i) > CMAX \/ Prod(i) < CMIN \/ (BODY = "A" /\ hi < lo)
+(* a call panics: overflow of index * chunk, the plain subtraction of the old code, or (body B) *)
+(* a result outside the value type                                                               *)
+Panics(i) == Prod(i) > CMAX \/ Prod(i) < CMIN
+             \/ (~FIX_REVERSED /\ (hi - lo > CMAX \/ hi - lo < CMIN))
              \/ (BODY = "B" /\ (s[i] < TMIN \/ s[i] > TMAX \/ e[i] < TMIN \/ e[i] > TMAX))
 
 Act(i) == i < peers
 NonEmpty(i) == Act(i) /\ s[i] < e[i]
 In(c, i) == NonEmpty(i) /\ s[i] <= c /\ c < e[i]
 
-NearMax == lo < hi /\ lo + Mul(Div(hi - lo + peers - 1, peers), peers - 1) > TMAX
-
-Compute == /\ chunk = TruncDiv(SatAdd(hi - lo, peers - 1), peers)
-           /\ s = [i \in Idx |-> SatAdd(lo, Prod(i))]
+Clamp(v) == IF v > CMAX THEN CMAX ELSE IF v < CMIN THEN CMIN ELSE v
+N == IF FIX_REVERSED THEN Max2(Clamp(hi - lo), 0) ELSE hi - lo
+Raw(i) == SatAdd(lo, Prod(i))
+Compute == /\ chunk = TruncDiv(SatAdd(N, peers - 1), peers)
+           /\ s = [i \in Idx |-> IF BODY = "B" /\ FIX_CLAMP_START THEN Min2(Raw(i), Max2(hi, lo)) ELSE Raw(i)]
            /\ e = [i \in Idx |-> Max2(Min2(SatAdd(s[i], chunk), hi), lo)]
 
 Init == /\ lo \in Int /\ hi \in Int /\ peers \in 1..6
         /\ TMIN <= lo /\ lo <= TMAX /\ TMIN <= hi /\ hi <= TMAX
-        /\ lo <= hi                    \* reversed ranges: finding F1
         /\ hi - lo <= MAXELEMS
-        /\ ~NearMax                    \* finding F1-nearmax (never true when T = C)
         /\ Compute
-(* without the carve-out for reversed ranges: Apalache must report the F1 counterexample *)
-InitAll == /\ lo \in Int /\ hi \in Int /\ peers \in 1..6
-           /\ TMIN <= lo /\ lo <= TMAX /\ TMIN <= hi /\ hi <= TMAX
-           /\ hi - lo <= MAXELEMS /\ lo - hi <= MAXELEMS
-           /\ ~NearMax
-           /\ Compute
 Next == UNCHANGED <<lo, hi, peers, chunk, s, e>>
 
 NoPanic == \A i \in Idx : Act(i) => ~Panics(i)
